@@ -22,6 +22,15 @@ let () =
            | "K" :: no :: ni :: rest ->
              let no = int_of_string no and ni = int_of_string ni in
              if no < 1 || no > 3 || ni < 1 || ni > 3 then raise (Malformed "nest");
+             (* optional `fork p`: the loops p .. n-1 appear twice, as two sibling chains below loop p-1 *)
+             let fork = (match rest with
+                 | "fork" :: p :: _ ->
+                   let p = int_of_string p in
+                   if p < 1 || p > no + ni - 1 then raise (Malformed "fork") else p
+                 | _ -> 0) in
+             let tag (ts : z list list) : z list list =
+               if fork = 0 then ts else List.map (fun t -> zi 0 :: t) ts @ List.map (fun t -> zi 1 :: t) ts in
+             let mult = if fork = 0 then 1 else 2 in
              (* cut at the first `loop` *)
              let rec before_loop = function [] -> [] | "loop" :: _ -> [] | t :: r -> t :: before_loop r in
              let envs = List.map (fun e ->
@@ -47,19 +56,33 @@ let () =
                  "V " ^ String.concat " ; " (List.map (fun rho ->
                      if oos rho then "OOS" else
                        match spec_nest rho hs with
-                       | Some ts -> if List.length ts > limit then "HUGE" else show_tuples ts
+                       | Some ts -> if mult * List.length ts > limit then "HUGE" else show_tuples (tag ts)
                        | None -> "NOFUEL") envs) in
              (* ---- model ---- *)
              let v = current in
              if not (List.for_all (accepted v) hs) then ("ERR", s_obs) else begin
-               let rec_texts kind (hl : header list) names =
-                 let d = List.length hl in
+               (* the component each loop reads: getOklLoopIndex on the loop tree of the kernel *)
+               let kinds = List.init (no + ni) (fun k -> k < no) in
+               let tree = forked kinds (nat_of_int fork) in
+               let axis_of_loop k = index_at tree (nat_of_int k) in
+               let names = ["o0"; "o1"; "o2"] and inames = ["i0"; "i1"; "i2"] in
+               let name_of k = if k < no then List.nth names k else List.nth inames (k - no) in
+               let rec_texts =
                  List.mapi (fun k h ->
-                     let a = axis_of (nat_of_int d) (nat_of_int k) in
-                     Printf.sprintf "%s %s%d count= %s decl= %s" (List.nth names k) kind (int_of_nat a)
+                     let kind = if k < no then "o" else "i" in
+                     let a = axis_of_loop k in
+                     Printf.sprintf "%s %s%d count= %s decl= %s" (name_of k) kind (int_of_nat a)
                        (text kind (count_tree v h))
-                       (text kind (value_tree h (Var (magic_of a))))) hl in
-               let texts = rec_texts "o" ho ["o0"; "o1"; "o2"] @ rec_texts "i" hi ["i0"; "i1"; "i2"] in
+                       (text kind (value_tree h (Var (magic_of a))))) hs in
+               (* the second sibling chain: same headers, iterators x<name>; the launcher takes its sizes from
+                  the first chain only *)
+               let copy_texts =
+                 if fork = 0 then [] else
+                   List.filteri (fun k _ -> k >= fork) (List.mapi (fun k h ->
+                       let kind = if k < no then "o" else "i" in
+                       let a = axis_of_loop k in
+                       Printf.sprintf "x%s decl= %s" (name_of k) (text kind (value_tree h (Var (magic_of a))))) hs) in
+               let texts = rec_texts @ copy_texts in
                let vals = List.map (fun rho ->
                    if oos rho then "OOS" else
                      match nest_counts_c v rho ho, nest_counts_c v rho hi with
@@ -67,10 +90,10 @@ let () =
                        let cs = List.map iz (co @ ci) in
                        if List.exists (fun c -> c < 0) cs && not v.v_noop_negative then "HUGE"
                        else if List.exists (fun c -> c <= 0) cs then "-"
-                       else if List.fold_left (fun a c -> if a > limit then a else a * c) 1 cs > limit then "HUGE"
+                       else if List.fold_left (fun a c -> if a > limit then a else a * c) mult cs > limit then "HUGE"
                        else
                          (match nest_gpu_c v rho ho, nest_gpu_c v rho hi with
-                          | Some a, Some b -> show_tuples (cart2 a b)
+                          | Some a, Some b -> show_tuples (tag (cart2 a b))
                           | _ -> "UB")
                      | _ -> "UB") envs in
                ("T " ^ String.concat " ; " texts ^ " | V " ^ String.concat " ; " vals, s_obs)
